@@ -24,6 +24,17 @@ long long ofv_get(const char *name)
 		}
 	}
 	fclose(f);
+	{	/* inputs the counterexample does not mention: 0, or (native fallback runs on undecided jobs) a value derived from $OFV_REPLAY_RANDOM */
+		const char *r = getenv("OFV_REPLAY_RANDOM");
+		if (r != NULL && atoi(r) != 0) {
+			unsigned long long h = 1469598103934665603ull ^ (unsigned long long)atoi(r);
+			const char *c;
+			for (c = name; *c; c++) { h ^= (unsigned char)*c; h *= 1099511628211ull; }
+			h ^= h >> 29;
+			printf("REPLAY-INPUT-RANDOM %s %llu\n", name, h & 0xffffffffull);
+			return (long long)(h & 0xffffffffull);
+		}
+	}
 	printf("REPLAY-INPUT-DEFAULTED %s 0\n", name);
 	return 0;
 }
